@@ -704,6 +704,9 @@ class Taint:
         if m and len(args) == 2:
             fake = {"k": "=", "l": {"l": -1, "p": []}, "r": {"k": "bin", "op": m.group(2).capitalize(), "a": args[0], "b": args[1]}}
             return s._def_bounds(b, db, "stmt", fake, depth, memo)
+        # `u64::from(x_u32)` / `usize::from(x_u16)`: a widening conversion, like the cast
+        if re.search(r"^<(u64|usize|i64|u128|i128|isize) as std::convert::From<u(8|16|32)>>::from$", f):
+            return {"hi", "lo", "nonneg"}
         if UNTAINT.search(f):
             return {"hi", "lo", "nonneg"}
         if (prov.PASS_THROUGH.search(f) and not re.search(r"HashMap|Mutex|RwLock", f)) or re.search(r"::(unwrap_or|unwrap_or_default|try_from|from|into)(::<.*>)?$", f):
